@@ -38,6 +38,8 @@ fn main() {
         "parse-tokens" => parse::tokens(rest),
         "check-text" => parse::check_one(rest),
         "events" => parse::dump_events(rest),
+        // self-test of the watchdog: a guarded call that never returns must end the process with status 3
+        "selftest-hang" => { util::note_input("selftest"); let _ = util::guarded(|| { let mut x = 0u64; loop { x = x.wrapping_add(1); std::hint::black_box(x); } }); }
         "gram-cases" => gram::cases(rest),
         "gram-model-cases" => parse::model_cases(rest),
         "gram-trace-record" => parse::record_model_traces(rest),
